@@ -1,18 +1,27 @@
 """Per-property claims (source of MANIFEST.json; tools/gen_manifest.py renders it)."""
 HOOK_COMMITS = []
 ENGINES = [
-    {"name": "lean-model", "path": "lean/", "serves_properties": ["C01", "C02", "C11", "C12", "C16", "C17", "C20"],
+    {"name": "lean-model", "path": "lean/", "serves_properties": ["C01", "C02", "C07", "C11", "C12", "C16", "C17", "C20"],
      "kind_free_text": "Lean 4 library Dbus (Spec, Model, Proofs, Props) + compiled line-protocol driver dbus-model"},
-    {"name": "tabulator", "path": "gen/", "serves_properties": ["C01", "C02", "C11", "C12", "C16", "C17", "C20"],
+    {"name": "tabulator", "path": "gen/", "serves_properties": ["C01", "C02", "C07", "C11", "C12", "C16", "C17", "C20"],
      "kind_free_text": "C translation units that #include repo sources and print finite tables; rendered to lean/Dbus/Generated"},
-    {"name": "h-lib", "path": "harness/lib/", "serves_properties": ["C01", "C02", "C11", "C12", "C16", "C17", "C20"],
+    {"name": "h-lib", "path": "harness/lib/", "serves_properties": ["C01", "C02", "C07", "C11", "C12", "C16", "C17", "C20"],
      "kind_free_text": "in-process C harnesses linked against the ASan/UBSan build of the working tree"},
 ]
 PENDING = "not implemented yet in this round (planned, see DESIGN.md §4/§7); no check is claimed"
 NOT_APPLICABLE = {p: PENDING for p in
-                  ["C03", "C04", "C05", "C06", "C07", "C08", "C09", "C10", "C13", "C14", "C15",
+                  ["C03", "C04", "C05", "C06", "C08", "C09", "C10", "C13", "C14", "C15",
                    "C18", "C19"]}
 CHECKS = {
+    "C07": {
+        "text": "Proved in Lean over the model of bus/signals.c (tokenizer, bus_match_rule_parse, match_rule_matches, match_rule_equal): a quoted "
+                "value round-trips through the tokenizer, unbalanced quotes / unknown keys / duplicate keys / over-long rules are rejected, and each "
+                "matching clause means what the specification says for every message (path_namespace_semantics, arg_plain/namespace/path_semantics, "
+                "unicast_needs_eavesdrop). The model is tied to the C parser and matcher by differential runs over generated rule texts (valid, "
+                "mutated, quoted/escaped, 0..64 args) and generated messages, under ASan/UBSan; F5 (argNpath over-read on empty string) and F13 "
+                "(match_rule_equal ignoring path for path_namespace rules) were found by this check and repaired in /repo.",
+        "note": "Partial: unit level only. End-to-end delivery (rule pools per message type, recipient de-duplication, removal of the most recent equal rule, cleanup at disconnect) is compared by the bus-level check when present; not yet proved.",
+    },
     "C17": {
         "text": "Proved in Lean over every history of sends, peer messages (replies, duplicates, stray reply serials), reads, single dispatch steps, "
                 "timeout firings, cancels, blocking waits and a peer close at any point: no call is notified twice and an uncompleted call is not "
